@@ -116,8 +116,8 @@ def obligations(tier):
         "spawn_child", "spawnchild.c", progs=[Prog("qmail-lspawn.c", cut=["nughde_get"])],
         repo=["prot.c", "scan_ulong.c", "byte_chr.c", "error_temp.c"], lib=["ideal_substdio.c"],
         sysrename=["fork", "chdir", "setgroups", "setgid", "setuid", "getuid", "execv", "_exit", "close", "pipe"],
-        grid=[{"NL": 10, "LL": 2}, {"NL": 7, "LL": 1}, {"NL": 10, "LL": 0}] if quick else
-             [{"NL": n, "LL": l} for n in (7, 8, 10, 12) for l in (1, 3)] + [{"NL": 12, "LL": 0}],
+        grid=([{"NL": 10, "LL": 2}, {"NL": 7, "LL": 1}, {"NL": 10, "LL": 0}] if quick else
+              [{"NL": n, "LL": l} for n in (7, 8, 10, 12) for l in (1, 3)] + [{"NL": 12, "LL": 0}]) + [{"NL": 19, "LL": 1, "UIDTPL": 1}],
         unwind_default=lambda p: p["NL"] + 4, unwind={"substdio_put": 64}, timeout=900,
         functions=["qmail-lspawn.c:spawn", "qmail-lspawn.c:report", "prot.c:prot_gid", "scan_ulong.c:scan_ulong", "byte_chr.c:byte_chr",
                    "error_temp.c:error_temp"],
@@ -131,8 +131,9 @@ def obligations(tier):
               "(QLX_ROOT before execv), with argv exactly {bin/qmail-local,--,user,home,local,dash,ext,domain,sender,defaultdelivery}; "
               "short records and failing steps exit with QLX codes that report() maps to Z",
         expect_witnesses=lambda p: ["trash_address"] if p["LL"] == 0 else
-        ["exec_qmail_local", "refused_root_113", "exec_failed_hard", "exec_failed_soft", "short_record_112", "setid_failed_112", "fd_failed_118"]
-        + (["exec_record_with_trailing_bytes"] if p["NL"] >= 8 else [])))
+        (["exec_qmail_local", "refused_root_113", "setid_failed_112"] if p.get("UIDTPL") else
+         ["exec_qmail_local", "refused_root_113", "exec_failed_hard", "exec_failed_soft", "short_record_112", "setid_failed_112", "fd_failed_118"]
+         + (["exec_record_with_trailing_bytes"] if p["NL"] >= 8 else []))))
     obls.append(Obl(
         "getpw_rules", "getpw.c", progs=[Prog("qmail-getpw.c", main_as="getpw_main")],
         repo=["case_lowers.c", "fmt_ulong.c", "byte_copy.c", "error_temp.c", "auto_break.c", "auto_usera.c"], lib=["ideal_substdio.c"],
